@@ -25,6 +25,20 @@ def naive [LT E] [DecidableLT E] (minimize : Bool) (n : Nat) : List E → Option
   | y :: ys =>
     some <| (ys.take (n - 1)).foldl (fun acc v => if minimize then (if v < acc then v else acc) else (if acc < v then v else acc)) y
 
+/-- binomial coefficient by the multiplicative formula (`C(n,k) = Π_{i<k} (n-i)/(i+1)`, every step exact) -/
+def chooseFast (n k : Nat) : Nat := (List.range k).foldl (fun acc i => acc * (n - i) / (i + 1)) 1
+
+/-- weights of the order statistics in the V-statistic curve: `(i/N)^n − ((i−1)/N)^n`, `i = 1..N` -/
+def vWeights [Sub α] [Div α] [NatCast α] (pw : α → α) (N : Nat) : List α :=
+  (List.range N).map fun i => pw (((i + 1 : Nat) : α) / (N : α)) - pw ((i : α) / (N : α))
+
+/-- weights of the order statistics in the U-statistic curve: `(C(i,n) − C(i−1,n)) / C(N,n)`, `i = 1..N`,
+with `n` clipped to `N` -/
+def uWeights [Sub α] [Div α] [NatCast α] (n N : Nat) : List α :=
+  let m := min n N
+  (List.range N).map fun i =>
+    (((chooseFast (i + 1) m : Nat) : α) - ((chooseFast i m : Nat) : α)) / ((chooseFast N m : Nat) : α)
+
 /-- the `mean` and `variance` attributes: `np.mean`/`np.var` without weights, and
 `np.sum(ws*ys, where=ws>0)`, `np.sum(ws*(ys-mean)**2, where=ws>0)` with them. -/
 def moments [Add α] [Sub α] [Mul α] [Div α] [Zero α] [LT α] [DecidableLT α] [NatCast α]
